@@ -64,7 +64,7 @@ fn interop<C: Suite>(ctx: &mut Ctx) {
     let base: u64 = if C::NAME == "G1Impl" { 1 << 20 } else { 1 << 32 };
     let n = C::NAME;
     let mut g = base;
-    let reps = ctx.tier.pick(6, 120);
+    let reps = ctx.tier.pick(6, 600);
     for s in SCHEMES {
         let sn = s.name();
         for c in ["signcrypt", "timelock", "pok", "pok-timestamp", "layout"] {
@@ -192,7 +192,7 @@ fn interop<C: Suite>(ctx: &mut Ctx) {
     }
     // ---- ElGamal proofs built by the reference
     ctx.require(&format!("ref->lib/{n}/elgamal"));
-    for _ in 0..ctx.tier.pick(6, 60) {
+    for _ in 0..ctx.tier.pick(6, 300) {
         g += 1;
         if !ctx.mine(g) {
             continue;
